@@ -151,7 +151,8 @@ func (c *BlobMemoryCache) TryReserve(size uint64) bool {
 	c.mu.Lock()
 	defer c.mu.Unlock()
 
-	if c.totalSize+size > c.config.MaxSize {
+	// Compare without adding: totalSize+size can wrap around for huge sizes.
+	if size > c.config.MaxSize || c.totalSize > c.config.MaxSize-size {
 		c.stats.Counter("reserve_failure").Inc(1)
 		return false
 	}
